@@ -71,13 +71,16 @@ pub struct History {
     pub uniform_fail_at: Option<u64>,
     /// override of the start list per problem (e.g. Some(vec![]) = empty start list)
     pub starts_override: Option<Vec<Vec<f64>>>,
+    /// uniform samples come from this list (cyclic) instead of the planner's generator
+    pub script: Option<Vec<Vec<f64>>>,
 }
 impl History {
     pub fn to_json(&self) -> Value {
         json!({"kind":"history","problems":self.problems.iter().map(|p| p.to_json()).collect::<Vec<_>>(),"params":self.params.to_json(),
                "prm_samples":self.prm_samples,"ops":self.ops.iter().map(|o| o.to_json()).collect::<Vec<_>>(),
                "uniform_fail_at":self.uniform_fail_at,
-               "starts_override":self.starts_override.as_ref().map(|l| l.iter().map(|s| crate::util::fjs(s)).collect::<Vec<_>>())})
+               "starts_override":self.starts_override.as_ref().map(|l| l.iter().map(|s| crate::util::fjs(s)).collect::<Vec<_>>()),
+               "script":self.script.as_ref().map(|l| l.iter().map(|s| crate::util::fjs(s)).collect::<Vec<_>>())})
     }
     pub fn from_json(v: &Value) -> History {
         History {
@@ -87,6 +90,7 @@ impl History {
             ops: v["ops"].as_array().unwrap().iter().map(Op::from_json).collect(),
             uniform_fail_at: v["uniform_fail_at"].as_u64(),
             starts_override: v["starts_override"].as_array().map(|a| a.iter().map(crate::util::parse_fs).collect()),
+            script: v["script"].as_array().map(|a| a.iter().map(crate::util::parse_fs).collect()),
         }
     }
     pub fn describe(&self) -> String {
@@ -130,9 +134,10 @@ pub fn run_history<K: Kit>(kit: &K, h: &History, keep_events: bool, budget: u64)
         l.tick_sample = crate::drv::MS;
         l.tick_valid = 0;
     }
-    let mode = || match h.uniform_fail_at {
-        Some(k) => SampleMode::FailAt(k),
-        None => SampleMode::PlannerRng,
+    let mode = || match (&h.script, h.uniform_fail_at) {
+        (Some(s), _) if !s.is_empty() => SampleMode::Scripted(s.clone()),
+        (_, Some(k)) => SampleMode::FailAt(k),
+        _ => SampleMode::PlannerRng,
     };
     let mut recs = vec![];
     let mut limit_since_setup = h.params.step_limit();
